@@ -112,8 +112,8 @@ func opSlack(w *world.World) time.Duration {
 	now := w.S.Elapsed()
 	for _, op := range w.Ops {
 		end := op.T1
-		if end < op.T0 {
-			end = now
+		if !op.Done {
+			end = now // still in flight
 		}
 		if d := end - op.T0; d > m {
 			m = d
